@@ -701,3 +701,55 @@ func runConfigAcyclic(p *Program, r *RuleResult) {
 	r.add("process typechecking phases", "top-level-configuration-acyclic", Violated, p.pos(d.Driver.Pos()),
 		"no phase checks that the top-level declarations do not use each other in a cycle: `prc[a] : 1 = wait b; close self   prc[b] : 1 = wait a; close self` is accepted and both processes wait forever (the run ends only through the inactivity timeout, with 0 of 2 processes finished)")
 }
+
+// R-CANCEL-CHECKED (C19): a cancelled run does not take another step.
+func init() {
+	register(&Rule{Name: "R-CANCEL-CHECKED", Min: 6,
+		Doc: "in every transition helper (a function of the interpreter that runs a rule handed to it as a closure), each call of that closure is preceded on all paths by a select that listens on the run context's Done channel: once a run has been cancelled no process of it performs a further step, so nothing of an earlier run keeps executing (and printing) during a later one",
+		Run: runCancelChecked})
+}
+
+func runCancelChecked(p *Program, r *RuleResult) {
+	n := 0
+	for _, fn := range p.SrcFuncs {
+		if fn.Pkg == nil || fn.Pkg.Pkg.Path() != processPkg || fn.Parent() != nil || fn.Blocks == nil {
+			continue
+		}
+		if !fnMentionsProcess(fn) {
+			continue // not a helper of the interpreter (e.g. the heartbeat's cancel function)
+		}
+		view := p.View(fn)
+		ord := 0
+		for _, c := range p.callsIn(fn) {
+			prm, ok := c.Common().Value.(*ssa.Parameter)
+			if !ok {
+				continue
+			}
+			if _, isSig := prm.Type().Underlying().(*types.Signature); !isSig {
+				continue
+			}
+			n++
+			ord++
+			construct := fmt.Sprintf("rule-call#%d", ord)
+			listens := func(in ssa.Instruction) bool {
+				sel, ok := in.(*ssa.Select)
+				if !ok {
+					return false
+				}
+				for _, st := range sel.States {
+					if cc, ok := st.Chan.(*ssa.Call); ok && st.Dir == types.RecvOnly && cc.Common().IsInvoke() && cc.Common().Method.Name() == "Done" {
+						return true
+					}
+				}
+				return false
+			}
+			if view.passedBefore(c, listens) {
+				r.add(fnName(fn), construct, Holds, p.instrPos(c), "the rule runs only after a select that listens for cancellation")
+			} else {
+				r.add(fnName(fn), construct, Violated, p.instrPos(c),
+					"the rule handed to this helper can run without the run's context having been consulted: a process that only takes such steps never notices that its run was cancelled and keeps executing while the next program runs")
+			}
+		}
+	}
+	r.count("rule calls in transition helpers", n)
+}
